@@ -14,7 +14,7 @@ HEAD = {
     "C01": "C01_default_style / C01_same_program: format(parse(src)) is a valid chunk with the source's reference tree up to normS, for every documented style",
     "C02": "C02_minified_style (same statement for MinifiedStyle, no comment hypothesis) + C02_boundary (no fusion where sep_required says none) + Format_lex_exact",
     "C03": "C03_parse_complete / C03_accept_iff: every valid chunk (in-scope strings) is accepted with the reference tree modulo parentheses; C03_ladder_is_climb",
-    "C04": "C04_lookup, C04_no_require, C04_terminates (explicit depth bound for acyclic expression-level requires), C04_formats_valid_final",
+    "C04": "C04_faithful / C04_faithful_dedup / C04_faithful_unique (refinement of the resolver to a declarative, functional inlining specification), C04_lookup, C04_no_require, C04_terminates (explicit depth bound for acyclic expression-level requires), C04_formats_valid_final",
     "C05": "Lex_sound / Lex_complete (whole-lexer agreement with the reference lexer), C05_model_reads, C05_long_brackets, C05_comments",
     "C06": "C06_quoted, C06_long, C06_forms, C06_wrapped: every written form, including the \\z wrapping, is read back to the value by the reference readers",
     "C07": "C07_partial (kind and exact value kept except K2/K3), C07_canonical, Lex_sound/complete for numerals in context",
